@@ -29,3 +29,18 @@ pub mod wasm;
 // when using rsdd-ocaml
 #[cfg(feature = "ffi")]
 mod ffi;
+
+/// Verification hooks (only with `--cfg rsdd_verif`): re-export of the unique
+/// table and per-thread overrides of initial capacities, so that growth and
+/// eviction are reachable with small workloads.
+#[cfg(rsdd_verif)]
+pub mod verif {
+    pub use crate::backing_store::{BackedRobinhoodTable, UniqueTable};
+    use std::cell::Cell;
+    thread_local! {
+        /// initial number of slots of every `BackedRobinhoodTable` created by this thread
+        pub static TABLE_CAPACITY: Cell<Option<usize>> = const { Cell::new(None) };
+        /// initial capacity (as a power of two) of every `LruIteTable` created by this thread
+        pub static LRU_CAPACITY: Cell<Option<usize>> = const { Cell::new(None) };
+    }
+}
